@@ -1189,6 +1189,7 @@ pub fn main_c19(tier_name: &str, seed: u64) -> i32 {
     extra.insert("simulated_time".into(), json!("none: asca reads no clock; simulated operations are counted instead"));
     extra.insert("event_log_digest".into(), json!(format!("{:016x}", st.log)));
     extra.insert("real_vs_stub".into(), report::real_vs_stub());
+    extra.insert("known_findings_reproduced".into(), json!(violations.iter().filter(|v| known.matches(v).is_some()).map(|v| format!("{}:{}", v.clause, v.signature)).collect::<Vec<_>>()));
     Evidence {
         property: "C19".into(),
         tier: tr.name.into(),
@@ -1206,7 +1207,7 @@ pub fn main_c19(tier_name: &str, seed: u64) -> i32 {
             "glibc symbol interposition and tmpfs behave as the seam self-test observed".into(),
         ],
         wall_s: wall,
-        violations: violations.len() as u64,
+        violations: violations.iter().filter(|v| known.matches(v).is_none()).count() as u64,
     }
     .write();
     println!("c19: {} histories, {} invocations ({} judged), {} ops, faults {:?}, digest {:016x}, {:.1}s", total, st.invocations, st.judged, st.ops, st.faults, st.log, wall);
